@@ -4,28 +4,9 @@
 From Coq Require Import List NArith Bool Lia.
 Import ListNotations.
 Require Import EV.Base EV.Access EV.AccessProofs EV.Query.
+Require Export EV.QueryInd.
 
-Section QInd.
-Variable P : query -> Prop.
-Hypotheses (HRef : forall c, P (QRef c)) (HMut : forall c, P (QMut c))
-  (HTuple : forall qs, Forall P qs -> P (QTuple qs))
-  (HOpt : forall q, P q -> P (QOpt q)) (HOr : forall l r, P l -> P r -> P (QOr l r))
-  (HXor : forall l r, P l -> P r -> P (QXor l r)) (HNot : forall q, P q -> P (QNot q))
-  (HWith : forall q, P q -> P (QWith q)) (HHas : forall q, P q -> P (QHas q)) (HEid : P QEid).
-Fixpoint query_ind' (q : query) : P q :=
-  match q with
-  | QRef c => HRef c | QMut c => HMut c
-  | QTuple qs => HTuple qs ((fix go (l : list query) : Forall P l :=
-                     match l with [] => Forall_nil P | x :: t => Forall_cons x (query_ind' x) (go t) end) qs)
-  | QOpt q' => HOpt q' (query_ind' q')
-  | QOr l r => HOr l r (query_ind' l) (query_ind' r)
-  | QXor l r => HXor l r (query_ind' l) (query_ind' r)
-  | QNot q' => HNot q' (query_ind' q')
-  | QWith q' => HWith q' (query_ind' q')
-  | QHas q' => HHas q' (query_ind' q')
-  | QEid => HEid
-  end.
-End QInd.
+
 
 (* T1: the access expression matches exactly the archetypes the documented meaning selects *)
 Theorem access_matches_qmatch (a : N -> bool) (q : query) : ca_matches a (access_of q) = qmatch a q.
